@@ -18,12 +18,14 @@
 //                                          k (nothing) | x:<M|O> (throws that SerializationException) | g:<target> | o,(,..,) | a,(,..,)
 //                                          | b:<n> | c:<n>,(,..,) (binary scope and n bytes, array scope when declined)
 //        array scope:   g:<target> | o,(,..,) | a,(,..,) | b:<n> | e (IsEnd)
+//                       | t,(,item,) : try { item } catch (SerializationException of code OutOfRange) { } (what SerializeArray(std::tuple)
+//                         does around its components)   | x:<R|M|O> : the caller throws that SerializationException
 //        key   : s<hex|-> std::string | u<hex> uint64_t | i<shex> int64_t | f<hexbits> float
 //                | d<hexbits> double | t<shex>_<shex> CBinTimestamp
 //        target: u1 u8 u16 u32 u64 c8 s8 s16 s32 s64 nil f32 f64 str ts
 //   answer: <tokens> END <pos> <sentinel> <fin>   |   <tokens> ERR <cat>   |  (process) TERMINATE
 //     fin: kinds m, s: CF0 | CF1 = IMsgPackReader::IsCloseScopeFailed(); kinds M, S: OK | ERR:<cat> = MsgPackReadRootScope::Finalize()
-//     tokens (comma separated, '-' = none): T<value> | F | ( | ) | n | x<hex> | K[key;key..] | E0 | E1
+//     tokens (comma separated, '-' = none): T<value> | F | ( | ) | n | x<hex> | K[key;key..] | E0 | E1 | C (OutOfRange caught)
 //     sentinel: one more ReadValue(int64_t&) after the root scope is gone: T<shex> | F | ERR:<cat>
 #include "common.h"
 #include <cmath>
@@ -101,12 +103,12 @@ static std::vector<Node> parse_items(const std::vector<std::string>& t, size_t& 
 		case 'O': case 'A': nd.key = f.at(1); break;
 		case 'g': nd.target = f.at(1); break;
 		case 'b': nd.n = std::strtoull(f.at(1).c_str(), nullptr, 10); break;
-		case 'V': case 'e': case 'o': case 'a': case 'E': case 'k': break;
+		case 'V': case 'e': case 'o': case 'a': case 'E': case 'k': case 't': break;
 		case 'x': nd.target = f.at(1); break;
 		case 'c': nd.n = std::strtoull(f.at(1).c_str(), nullptr, 10); break;
 		default: throw DriverError{"bad history item"};
 		}
-		if (nd.kind == 'O' || nd.kind == 'A' || nd.kind == 'o' || nd.kind == 'a' || nd.kind == 'E' || nd.kind == 'c') {
+		if (nd.kind == 'O' || nd.kind == 'A' || nd.kind == 'o' || nd.kind == 'a' || nd.kind == 'E' || nd.kind == 'c' || nd.kind == 't') {
 			if (i >= t.size() || t[i] != "(") throw DriverError{"( expected"};
 			++i;
 			nd.body = parse_items(t, i);
@@ -271,6 +273,17 @@ static void walk_arr(ArrScope& sc, const std::vector<Node>& items) {
 			break;
 		}
 		case 'e': emit(sc.IsEnd() ? "E1" : "E0"); break;
+		case 't':
+			if (nd.body.size() != 1) throw DriverError{"t,(,one item,) expected"};
+			try { walk_arr(sc, nd.body); }
+			catch (const SerializationException& ex) {
+				if (ex.GetErrorCode() != SerializationErrorCode::OutOfRange) throw;
+				emit("C");
+			}
+			break;
+		case 'x':
+			throw SerializationException(nd.target == "R" ? SerializationErrorCode::OutOfRange
+				: nd.target == "O" ? SerializationErrorCode::Overflow : SerializationErrorCode::MismatchedTypes, "thrown by the caller");
 		default: throw DriverError{"object item in an array scope"};
 		}
 	}
